@@ -173,6 +173,21 @@ func walk(n *html.Node, f func(*html.Node)) {
 
 // ---- the oracle subcommand -----------------------------------------------------------------------------
 
+// sortedAttrs re-serialises the token stream with the attributes of every tag sorted by key
+func sortedAttrs(doc string) string {
+	z := html.NewTokenizer(strings.NewReader(doc))
+	var b strings.Builder
+	for {
+		tt := z.Next()
+		if tt == html.ErrorToken {
+			return b.String()
+		}
+		t := z.Token()
+		sort.SliceStable(t.Attr, func(i, j int) bool { return t.Attr[i].Key < t.Attr[j].Key })
+		b.WriteString(t.String())
+	}
+}
+
 func oracleMode(args []string) {
 	fs := flag.NewFlagSet("oracle", flag.ExitOnError)
 	prop := fs.String("prop", "", "property id")
@@ -208,7 +223,7 @@ func oracleMode(args []string) {
 		sum.emit()
 		return
 	}
-	if *prop == "C11" || *prop == "C12" {
+	if *prop == "C11" || *prop == "C12" || *prop == "C20" {
 		// the grids of the attribute-level correspondence, rendered as documents
 		cases := linkGrid(rng, *nPol > 100)
 		if *prop == "C12" {
@@ -233,9 +248,11 @@ func oracleMode(args []string) {
 				distinct[c.doc+ac.ps.Name] = true
 			}
 		}
-		sum.Nontrivial = len(distinct)
-		sum.emit()
-		return
+		if *prop != "C20" {
+			sum.Nontrivial = len(distinct)
+			sum.emit()
+			return
+		}
 	}
 	unsafeOK := false
 	for _, ps := range oraclePoliciesFor(*prop, rng, *nPol, unsafeOK) {
@@ -613,7 +630,11 @@ func oracleFor(prop string, fail func(oracleCase, string, map[string]any), sum *
 			once := c.gp.Sanitize(c.doc)
 			twice := c.gp.Sanitize(once)
 			if once != twice {
-				fail(c, "sanitising the output again changes it", map[string]any{"once": once, "twice": twice})
+				if sortedAttrs(once) == sortedAttrs(twice) {
+					fail(c, "sanitising the output again changes only the order of the attributes of a tag", map[string]any{"once": once, "twice": twice})
+				} else {
+					fail(c, "sanitising the output again changes it", map[string]any{"once": once, "twice": twice})
+				}
 			}
 			return once != "" && once != c.doc
 		}
